@@ -583,17 +583,17 @@ impl<Db: Database> StorageManager<Db> {
         if self.is_transaction_active() {
             let transaction_records = self.transaction.get_users_states(usernames, flag);
             for (label, value_state) in transaction_records.into_iter() {
-                if let Some((epoch, _)) = data.get(&label) {
+                if let Some((version, _)) = data.get(&label) {
                     // there is an existing DB record, check if we should updated it from the transaction log
                     if let Some(updated_record) =
-                        Self::compare_db_and_transaction_records(*epoch, value_state, flag)
+                        Self::compare_db_version_and_transaction_record(*version, value_state, flag)
                     {
-                        data.insert(label, (*epoch, updated_record.value));
+                        data.insert(label, (updated_record.version, updated_record.value));
                     }
                 } else {
                     // there is no db-equivalent record, but there IS a record in the transaction log.
                     // Take the transaction log value
-                    data.insert(label, (value_state.epoch, value_state.value));
+                    data.insert(label, (value_state.version, value_state.value));
                 }
             }
         }
@@ -636,6 +636,34 @@ impl<Db: Database> StorageManager<Db> {
             }
         }
         None
+    }
+
+    /// Same decision as [`Self::compare_db_and_transaction_records`] for the bulk query, which only
+    /// knows the database record's version: a user's versions increase with their epochs, so the
+    /// versions are compared instead of the epochs.
+    fn compare_db_version_and_transaction_record(
+        state_version: u64,
+        transaction_value: ValueState,
+        flag: ValueStateRetrievalFlag,
+    ) -> Option<ValueState> {
+        match flag {
+            ValueStateRetrievalFlag::SpecificVersion(_)
+            | ValueStateRetrievalFlag::SpecificEpoch(_) => Some(transaction_value),
+            ValueStateRetrievalFlag::LeqEpoch(_) | ValueStateRetrievalFlag::MaxEpoch => {
+                if transaction_value.version >= state_version {
+                    Some(transaction_value)
+                } else {
+                    None
+                }
+            }
+            ValueStateRetrievalFlag::MinEpoch => {
+                if transaction_value.version <= state_version {
+                    Some(transaction_value)
+                } else {
+                    None
+                }
+            }
+        }
     }
 
     fn increment_metric(&self, _metric: Metric) {
